@@ -2359,26 +2359,16 @@ class BaseDocReader(LogMixin):
                     "axis-subset element must have a name attribute."
                 )
 
-            userMinimum = element.get("userminimum")
-            userDefault = element.get("userdefault")
-            userMaximum = element.get("usermaximum")
-            if (
-                userMinimum is not None
-                and userDefault is not None
-                and userMaximum is not None
+            # each of the three attributes is optional on its own
+            userValues = {}
+            for attr, key in (
+                ("userMinimum", "userminimum"),
+                ("userDefault", "userdefault"),
+                ("userMaximum", "usermaximum"),
             ):
-                return self.rangeAxisSubsetDescriptorClass(
-                    name=name,
-                    userMinimum=float(userMinimum),
-                    userDefault=float(userDefault),
-                    userMaximum=float(userMaximum),
-                )
-            if all(v is None for v in (userMinimum, userDefault, userMaximum)):
-                return self.rangeAxisSubsetDescriptorClass(name=name)
-
-            raise DesignSpaceDocumentError(
-                "axis-subset element must have min/max/default values or none at all."
-            )
+                if element.get(key) is not None:
+                    userValues[attr] = float(element.get(key))
+            return self.rangeAxisSubsetDescriptorClass(name=name, **userValues)
 
     def readSources(self):
         for sourceCount, sourceElement in enumerate(
